@@ -29,7 +29,9 @@ theorem diffG_model : ∀ (e : Expr), diffG c10ModelRules cfg v e = diff cfg v e
   | .ite c t e => by
       simp only [diffG, diff, diffG_model t, diffG_model e]
       by_cases h : cfg = .discontinuous <;> simp [c10ModelRules, h]
-  | .cse c p s => by simp only [diffG, diff, diffG_model c]
+  | .cse c p s => by
+      simp only [diffG, diff, diffG_model c]
+      rfl
   | .call f [] => by simp only [diffG, diff]
   | .call f (p :: ps) => by
       simp only [diffG, diff, diffGCall_model]
